@@ -347,13 +347,23 @@ def _signal_discharge_for(ctx, cls: str, f: Func, D: str) -> Tuple[bool, str]:
         while not isinstance(getattr(st, "_parent", None), (ast.FunctionDef, ast.If, ast.For, ast.While, ast.With, ast.Try)) and getattr(st, "_parent", None) is not None:
             st = st._parent
         par = getattr(st, "_parent", None)
+        # `if <cond>: push` as a whole, when the pop in the finally is under the same condition (an optional marker)
+        if isinstance(par, ast.If) and par.body == [st] and not par.orelse:
+            cond = norm(par.test)
+            st, par = par, getattr(par, "_parent", None)
+        else:
+            cond = None
         paired = False
         for field in ("body", "orelse", "finalbody"):
             blk = getattr(par, field, None)
             if isinstance(blk, list) and st in blk:
                 i = blk.index(st)
-                if i + 1 < len(blk) and isinstance(blk[i + 1], ast.Try) and any(f"self.{D}.pop()" in norm(x) for x in blk[i + 1].finalbody):
-                    paired = True
+                if i + 1 < len(blk) and isinstance(blk[i + 1], ast.Try):
+                    fin = blk[i + 1].finalbody
+                    if cond is None and any(f"self.{D}.pop()" in norm(x) for x in fin):
+                        paired = True
+                    if cond is not None and any(isinstance(x, ast.If) and norm(x.test) == cond and any(f"self.{D}.pop()" in norm(y) for y in x.body) for x in fin):
+                        paired = True
         if not paired:
             return False, f"{g.qual} pushes self.{D} without a try/finally that pops it"
         B.append(g)
